@@ -21,7 +21,8 @@ Inductive case :=
 | CaseX (pre udevs : list string) (uncs : list ncid) (uits : list ity) (ks : list key)
         (rem0 capb tb : list (key * Z)) (validate : bool) (ops : list xop) (obs : list xobs)
 | CaseF (pre : list string) (budgets tbudgets : list (key * Z)) (recs : list arec)
-| CaseP (req : option Z) (total : Z) (pol : option policy) (obs : option Z).
+| CaseP (req : option Z) (total : Z) (pol : option policy) (obs : option Z)
+| CaseK (alloc only_deleting in_memory : bool) (searched : bool).
 
 (* ---- model state against a snapshot, over the finite universe of names the case mentions ---- *)
 Definition snap_matches (m : mgr) (hs : list host) (rs : list rid) (s : snapshot) : bool :=
@@ -239,6 +240,9 @@ Definition check_case (c : case) : list string :=
   | CaseP req total pol obs =>
       let c := consumed_capacity req total pol in
       if opt_eqb obs (if violates_policy c pol then None else Some c) then [] else ["corr:capacity-request-policy"]
+  | CaseK alloc only_deleting in_memory searched =>
+      (if Bool.eqb searched (cls_eqb (classify alloc only_deleting in_memory) CUnalloc) then [] else ["corr:classify-claims"]) ++
+      (if in_memory && searched then ["oracle:claim-allocated-twice-in-one-pass"] else [])
   end.
 
 Definition check_all (cs : list (Z * case)) : list (Z * string) :=
